@@ -21,11 +21,24 @@ def histories(run: Run) -> list[dict]:
     thorough = run.tier == "thorough"
     rng = common.rng_for(run.seed, "c04")
     hs: list[dict] = list(S.CORPUS_C04)
-    n_exact, n_scipy = (2600, 900) if thorough else (420, 160)
+    n_exact, n_scipy, n_tdep = (2600, 900, 300) if thorough else (420, 160, 60)
     for _ in range(n_exact):
         hs.append(S.gen_history(rng, "exact", 6))
     for _ in range(n_scipy):
         hs.append(S.gen_history(rng, "scipy", 5))
+    for _ in range(n_tdep):
+        hs.append(S.gen_history(rng, "tdep", 5))
+    # structured families (see the generators): override after a steady-state run, tiny gaps at large absolute time,
+    # clear_results after an override with rates reading `time`
+    m = 5 if thorough else 1
+    for fam, plan in (
+        (S.gen_steady_override, (("exact", 16), ("scipy", 24))),
+        (S.gen_large_time, (("exact", 24), ("scipy", 12))),
+        (S.gen_clear_after_override, (("exact", 24), ("tdep", 16))),
+    ):
+        for mode, n in plan:
+            for _ in range(n * m):
+                hs.append(fam(rng, mode))
     if thorough:
         hs += S.enum_histories(rng)
     return hs
@@ -38,7 +51,11 @@ def check(run: Run) -> None:
         "histories of 1-6 Simulator operations (simulate / time course / protocol / protocol time course / steady state / "
         "update_parameter(s) / update_variable(s) / clear_results) with ~20% illegal requests (end not later than reached, "
         "overlapping, unsorted or repeating time arrays, steps=0), times multiples of 1/8, on the real Simulator + real Scipy class "
-        "(exact stand-in solver: x'=k*y+a*time, y'=c; real scipy: x'=-k*x, y'=k*x-c*y); non-trivial = at least two operations "
+        "(exact stand-in solver: x'=k*y+a*time, y'=c; real scipy: x'=-k*x, y'=k*x-c*y and the time-dependent x'=-k*time*x, "
+        "y'=c*time-k*y); ~15% of the time arrays are caller-owned float64 ndarrays, some handed to several calls (must not be "
+        "modified); plus three structured families: steady-state run ; override of ONE variable ; continuation -- tiny gaps "
+        "(2^-7..2^-9) after the time reached at absolute times 512..4096, also in shifted time after an override -- "
+        "simulate ; override ; clear_results ; simulate with rates reading time; non-trivial = at least two operations "
         "of which one continues an earlier result, overrides a variable, clears, or is refused; distinct by content"
     )
     proofs_ok = run.check_proofs(AREA, PROPS)
